@@ -1,4 +1,5 @@
 import Tftp.Props.C02
+import Tftp.Lemmas.ReceiverNoSpace
 /-!
 # C13 — Failed uploads are cleaned up without harming completed ones
 
@@ -76,6 +77,41 @@ theorem c13_single_owner_partial (blocks : List Bytes) :
       | nil => intro acc; simp
       | cons b bs ih => intro acc; simp only [List.map_cons, List.foldl_cons, pathStep, Option.getD_some]; rw [ih]; simp
     simpa using this blocks []
+
+/-! ### write errors -/
+
+/-- **write error**: on a target that can be created but takes no byte (`ENOSPC`/`EFBIG` on every non-empty write), for every
+script of events: nothing is ever written, every ACK that is emitted is emitted over an empty file, the only upload that can
+be reported complete is the one that carries no data at all, and a failed one is removed under clean-on-error (kept, empty,
+under keep-on-error). -/
+theorem c13_write_error (c : RCfg) (evs : List REv) :
+    let r := rRunFrom c (rInitUnwritable c) evs
+    r.2.win.file.content = [] ∧
+    (∀ g ∈ r.1, ∀ a ∈ g, a.file.content = []) ∧
+    (r.2.status = .ok → r.2.received.flatten = []) ∧
+    (r.2.status = .failed → c.cleanOnError = true → rFinalFile c r.2 = none) ∧
+    (r.2.status = .failed → c.cleanOnError = false → rFinalFile c r.2 = some []) := by
+  intro r
+  obtain ⟨hinv, hacks⟩ := rRunFrom_ns c evs (rInitUnwritable c) (rInitUnwritable_inv c)
+  refine ⟨hinv.empty, hacks, ?_, ?_, ?_⟩
+  · intro hok
+    have h1 := hinv.pend (by rw [hok]; simp)
+    have h2 := hinv.okEmpty hok
+    rw [← h1, h2]; rfl
+  · intro hf hc
+    unfold rFinalFile
+    simp only [hf, hc, if_true]
+  · intro hf hc
+    unfold rFinalFile
+    simp only [hf, hc, Bool.false_eq_true, if_false]
+    exact congrArg some hinv.empty
+
+/-- a data-carrying upload to such a target does fail (the guard of `c13_write_error` is met by real runs) -/
+example : (rRunFrom { b := 4, w := 2, rep := 1, cleanOnError := true } (rInitUnwritable { b := 4, w := 2, rep := 1, cleanOnError := true })
+    [.data 1 [1, 2, 3, 4], .data 2 [5, 6, 7, 8]]).2.status = .failed := by decide
+/-- ... and the empty upload succeeds -/
+example : (rRunFrom { b := 4, w := 2, rep := 1, cleanOnError := true } (rInitUnwritable { b := 4, w := 2, rep := 1, cleanOnError := true })
+    [.data 1 []]).2.status = .ok := by decide
 
 /-! non-vacuity -/
 example : (rRun { b := 4, w := 2, rep := 1, cleanOnError := false } [.data 1 [1, 2, 3, 4], .data 2 [5, 6, 7, 8], .data 3 [9, 9, 9, 9], .error]).2.status = .failed ∧
